@@ -91,7 +91,7 @@ def run_history(program, history, solver_kw=None, choices=None, leaves=None, unk
         if steer and leaves is not None:
             prims = ex.primaries(built)
             cands = candidates_for(built, prims, leaves)
-        env = ctl.Env(choices=choices, candidates=cands, unknown_at=unknown_at, costs=costs, default_cost=default_cost)
+        env = ctl.Env(choices=choices, candidates=cands, unknown_at=unknown_at, costs=costs, default_cost=default_cost, lazy=(steer == "lazy"))
         with ctl.use(env):
             for ev in history:
                 mark = len(buf.getvalue())
